@@ -1,7 +1,9 @@
 """C11 — search-space enumeration is exact (iter_dna / space_size / next_dna /
 validate / DNA(..., spec=) / from_numbers / random_dna / Sweeping) against the
 independent reference `monitors/genoref.py`."""
+import math
 import random as pyrandom
+import sys
 import traceback
 
 import pyglove as pg
@@ -19,13 +21,13 @@ TIERS = {
                   members=2, corrupt=1, corrupt_kinds=6, flat_kinds=3,
                   draws=2, gen_draws=1, next_picks=1, first_iter=1,
                   sweep_full=6, sweep_prefix=3, validate_iterated=16,
-                  timeout_s=600),
+                  reuse_tail=2, stub_draws=1, timeout_s=600),
     'thorough': dict(shards=16, max_dnas=64, random=12, random_max=200,
                      prefix=30, members=4, corrupt=1, corrupt_kinds=None,
                      flat_kinds=None, draws=6, gen_draws=2, next_picks=2,
                      first_iter=3, sweep_full=30, sweep_prefix=6,
-                     validate_iterated=30, timeout_s=3000,
-                     case_timeout_s=300),
+                     validate_iterated=30, reuse_tail=3, stub_draws=2,
+                     timeout_s=3000, case_timeout_s=300),
 }
 EXHAUSTIVE = {'quick': True, 'thorough': True}
 RULE = ('case = one search-space description. Exhaustive part (same for every '
@@ -89,16 +91,195 @@ def leaf_family():
   return [S.relocate(d) for d in out]
 
 
+# --------------------------------------------------------------------------
+# Float decision points: every scale, pinned / few-ulp / ordinary / huge ranges.
+# --------------------------------------------------------------------------
+
+SCALES = (None, 'linear', 'log', 'rlog')
+FMAX = sys.float_info.max
+TINY = 5e-324                      # smallest positive double
+
+
+def floatv(lo, hi, scale=None):
+  """Float description with the `scale` option (read by `build` below and by
+  nothing in the reference: the scale is a hint and never changes the set)."""
+  e = S.floatv(lo, hi)
+  e['scale'] = scale
+  return e
+
+
+def ulps(x, k):
+  for _ in range(abs(k)):
+    x = math.nextafter(x, math.inf if k > 0 else -math.inf)
+  return x
+
+
+def build(desc):
+  """`gen/spaces.build` with the `scale` option of float elements."""
+  if desc['t'] == 'space':
+    return pg.geno.Space([build(e) for e in desc['elems']])
+  if desc['t'] == 'float':
+    loc = pg.KeyPath.parse(desc['loc']) if desc['loc'] else pg.KeyPath()
+    return pg.geno.floatv(desc['lo'], desc['hi'], scale=desc.get('scale'),
+                          location=loc, name=desc['name'])
+  if desc['t'] == 'custom':
+    return S.build(desc)
+  cands = [build(c) for c in desc['cands']]
+  loc = pg.KeyPath.parse(desc['loc']) if desc['loc'] else pg.KeyPath()
+  lits = list(desc['lits']) if desc['lits'] is not None else None
+  if desc['k'] == 1:
+    return pg.geno.oneof(cands, literal_values=lits, location=loc,
+                         name=desc['name'])
+  return pg.geno.manyof(desc['k'], cands, distinct=desc['distinct'],
+                        sorted=desc['sorted'], literal_values=lits,
+                        location=loc, name=desc['name'])
+
+
+def width_overflows(e):
+  """hi - lo is not a finite double (the range itself is finite)."""
+  return math.isinf(e['hi'] - e['lo'])
+
+
+def float_key(desc):
+  """Class of the float decision points of a description for mechanism keys:
+  the scale option, or `width-overflow` when hi - lo is not representable.
+  Workloads give all floats of one description the same class."""
+  fl = G.float_elems(desc)
+  if not fl:
+    return None
+  classes = {'width-overflow' if width_overflows(e) else (e.get('scale') or 'default')
+             for e in fl}
+  return 'float[%s]' % (classes.pop() if len(classes) == 1 else 'mixed')
+
+
+def show(desc):
+  fl = G.float_elems(desc)
+  scales = sorted({str(e.get('scale')) for e in fl})
+  return S.show(desc) + (' scale=' + '/'.join(scales) if fl and scales != ['None'] else '')
+
+
+def float_ranges():
+  """(class, positive-only?, [(lo, hi), ...]) of the fixed float family."""
+  pinned = [0.1, 0.3, 3.0, 5.7, 10.0, 100.0, 1e-5, 1e300, TINY, 0.7, 1.0, FMAX]
+  tiny = [(0.1, 1), (3.0, 3), (1e10, 2), (5.7, 1), (100.0, 2), (1e-300, 1)]
+  return [
+      ('pinned', True, [(v, v) for v in pinned]),
+      ('few-ulps', True, [(x, ulps(x, k)) for x, k in tiny]),
+      ('ordinary', True, [(0.1, 1.0), (3.0, 5.7), (0.5, 0.75)]),
+      ('huge', True, [(1e-300, 1e300), (TINY, FMAX), (1e-6, 1e3)]),
+      ('pinned', False, [(0.0, 0.0), (-0.1, -0.1), (-5.7, -5.7)]),
+      ('few-ulps', False, [(-TINY, TINY), (ulps(-0.1, -2), -0.1), (0.0, TINY)]),
+      ('huge', False, [(-1e300, 1e300), (-FMAX / 2, FMAX / 2), (-FMAX, 0.0)]),
+      ('width-overflow', False, [(-1e308, 1e308), (-FMAX, FMAX)]),
+  ]
+
+
+def float_family():
+  """Fixed descriptions: every scale x groups of <= 3 float ranges of one
+  class, alone / next to a choice / in a conditional sub-space of a sorted
+  non-distinct multi-choice (the embedding rotates)."""
+  out = []
+  for scale in SCALES:
+    for _, positive, ranges in float_ranges():
+      if not positive and scale in ('log', 'rlog'):
+        continue                  # documented: min_value must be positive
+      for at in range(0, len(ranges), 3):
+        fs = [floatv(lo, hi, scale) for lo, hi in ranges[at:at + 3]]
+        how = len(out) % 3
+        if how == 0:
+          d = S.space(*fs)
+        elif how == 1:
+          d = S.space(S.choice(1, S.consts(2)), *fs)
+        else:
+          d = S.space(S.choice(2, [S.space(*fs), S.CONST, S.CONST], False, True))
+        out.append(S.relocate(d))
+  return out
+
+
+def vary_floats(desc, rng):
+  """Gives the floats of a random description (fresh dicts) one scale and one
+  class of range."""
+  fl = G.float_elems(desc)
+  if not fl:
+    return
+  scale = rng.choice(SCALES)
+  cls = rng.choice(['keep', 'pinned', 'pinned', 'few-ulps', 'ordinary', 'huge'])
+  positive = scale in ('log', 'rlog')
+  for e in fl:
+    e['scale'] = scale
+    if cls == 'keep' and not (positive and e['lo'] <= 0):
+      continue
+    x = rng.choice([round(rng.uniform(0.01, 100.0), rng.choice([1, 1, 2, 3])),
+                    10.0 ** rng.randint(-8, 8), rng.uniform(1e-3, 1e3),
+                    float(rng.randint(1, 12))])
+    if not positive and rng.random() < 0.3:
+      x = -x
+    if cls == 'pinned':
+      lo, hi = x, x
+    elif cls == 'few-ulps':
+      lo, hi = x, ulps(x, rng.randint(1, 3))
+    elif cls == 'huge':
+      lo, hi = (abs(x) * 1e-290, abs(x) * 1e290) if positive else (-abs(x) * 1e290, abs(x) * 1e290)
+    else:
+      lo, hi = x, x + abs(x) * rng.choice([0.5, 1.0, 9.0])
+    e['lo'], e['hi'] = float(lo), float(hi)
+
+
+class SafeRandom(pyrandom.Random):
+  """Harness-side sampler of float members: stays inside [a, b] also when
+  b - a is not representable."""
+
+  def uniform(self, a, b):
+    r = self.random()
+    return min(max(a * (1.0 - r) + b * r, a), b)
+
+
+class ExtremeRandom(pyrandom.Random):
+  """A `random.Random` whose float draws are extreme but admissible.
+
+  mode `lo` / `hi` / `alt`: uniform(a, b) returns a / b / both in turn (both
+  ends are admissible results of uniform); mode `r0` / `r1`: uniform is the
+  stdlib formula a + (b - a) * random() with random() = 0.0 / the largest
+  value below 1.0.  random() follows the mode as well; integer draws
+  (getrandbits and all that is built on it) stay those of the seeded stdlib
+  generator."""
+  MODES = ('lo', 'hi', 'alt', 'r0', 'r1')
+  BELOW_ONE = 1.0 - 2.0 ** -53
+
+  def __init__(self, seed, mode):
+    super().__init__(seed)
+    self.mode = mode
+    self.flip = 0
+
+  def getrandbits(self, k):
+    return super().getrandbits(k)
+
+  def _low(self):
+    if self.mode == 'alt':
+      self.flip ^= 1
+      return self.flip == 1
+    return self.mode in ('lo', 'r0')
+
+  def random(self):
+    return 0.0 if self._low() else self.BELOW_ONE
+
+  def uniform(self, a, b):
+    if self.mode in ('r0', 'r1'):
+      return a + (b - a) * self.random()
+    return a if self._low() else b
+
+
 def family(ctx):
   """Every description of gen/spaces.exhaustive() with <= max_dnas members,
   plus every single flat choice (k <= 3, n <= 4, all modes) of any size, plus
-  the fixed leaf family."""
+  the fixed leaf family and the fixed float family."""
   key = ctx.params['max_dnas']
   if key not in _FAMILY:
     sized = [(d, G.size(d)) for d in S.exhaustive(10 ** 9)]
     fam = [d for d, n in sized if n <= key]          # == S.exhaustive(key)
     fam += [d for d, n in sized if n > key and is_flat_single(d)]
     fam += leaf_family()
+    fam += float_family()
     _FAMILY[key] = fam
   return _FAMILY[key]
 
@@ -255,6 +436,8 @@ def corruptions(rng, desc, flat):
     elif pt.elem['t'] == 'float':
       lo, hi = pt.elem['lo'], pt.elem['hi']
       vals = [('float-low', lo - 0.5), ('float-high', hi + 0.5),
+              ('float-low-ulp', math.nextafter(lo, -math.inf)),
+              ('float-high-ulp', math.nextafter(hi, math.inf)),
               ('float-int', int(lo) if float(int(lo)) >= lo else int(hi)),
               ('float-str', repr(pt.value)), ('float-none', None)]
     else:
@@ -448,44 +631,189 @@ def check_nonmembers(ctx, rng, desc, spec, members, case, all_kinds=False):
                       f'from_numbers({flat!r}) accepted', case)
 
 
+def other_specs():
+  """A few fixed finite specs (built once per shard) a generator is set up on
+  between two uses: (description, spec object, reference enumeration)."""
+  if not _OTHERS:
+    for d in (S.space(S.choice(1, S.consts(3))),
+              S.space(S.choice(2, S.consts(3), True, True)),
+              S.space(S.choice(1, [S.CONST, S.space(S.choice(1, S.consts(2)))]),
+                      S.choice(1, S.consts(2)))):
+      d = S.relocate(d)
+      _OTHERS.append((d, build(d), list(G.enumerate_flat(d))))
+  return _OTHERS
+
+
+_OTHERS = []
+
+
 def check_random(ctx, rng, desc, spec, case):
   c = ctx.counters
   r = pyrandom.Random(rng.randrange(1 << 30))
+  fkey = float_key(desc)
+  sfx = (':' + fkey) if fkey else ''
+
+  def judge(entry, d, target=desc):
+    """Reference membership (genoref) of one returned DNA."""
+    c['random_dna_checks'] += 1
+    flat = numbers(d)
+    why = G.why_not(target, flat)
+    if why is None and G.tree(target, flat) != dna_shape(d):
+      why = ('shape', 'tree')
+    if why is not None:
+      knd = fkey if (why[1] == 'float' and target is desc) else why[1]
+      ctx.violation('random-nonmember', f'{entry}:{knd}:{why[0]}',
+                    f'{entry} returned {d!r} = {flat!r}: {why}', case)
+
   for j in range(ctx.params['draws']):
     # the first draw is taken unbound, so that a non-member is seen as such
     # and not only through the binding check inside random_dna
     kw = {'attach_spec': False} if j == 0 else {}
-    d = lib_call(ctx, 'random_dna', lambda: spec.random_dna(r, **kw), case)
+    d = lib_call(ctx, 'random_dna' + sfx, lambda: spec.random_dna(r, **kw), case)
     if isinstance(d, Raised):
       break
-    c['random_dna_checks'] += 1
-    flat = numbers(d)
-    why = G.why_not(desc, flat)
-    if why is None and G.tree(desc, flat) != dna_shape(d):
-      why = ('shape', 'tree')
-    if why is not None:
-      ctx.violation('random-nonmember', f'random_dna:{why[1]}:{why[0]}',
-                    f'random_dna returned {d!r} = {flat!r}: {why}', case)
+    judge('random_dna', d)
+  # float draws at the ends of their ranges: generators whose uniform() /
+  # random() return the extremes a random.Random may return
+  if fkey:
+    for mode in ExtremeRandom.MODES:
+      x = ExtremeRandom(rng.randrange(1 << 30), mode)
+      for j in range(ctx.params.get('stub_draws', 1) + 1):
+        kw = {'attach_spec': False} if j == 0 else {}
+        d = lib_call(ctx, 'random_dna[extreme-rng]' + sfx,
+                     lambda: spec.random_dna(x, **kw), case)
+        if isinstance(d, Raised):
+          break
+        c['random_dna_extreme_rng'] += 1
+        c['random_dna_extreme_rng:' + mode] += 1
+        judge('random_dna[extreme-rng]', d)
   # the functional entry point and the Random generator
-  d = lib_call(ctx, 'pg.random_dna', lambda: pg.random_dna(spec, r), case)
+  d = lib_call(ctx, 'pg.random_dna' + sfx, lambda: pg.random_dna(spec, r), case)
   if not isinstance(d, Raised):
-    c['random_dna_checks'] += 1
-    why = G.why_not(desc, numbers(d))
-    if why is not None:
-      ctx.violation('random-nonmember', f'pg.random_dna:{why[1]}:{why[0]}',
-                    f'{d!r}: {why}', case)
+    judge('pg.random_dna', d)
+  a = pg.geno.Random(seed=rng.randrange(1000))
   def gen():
-    a = pg.geno.Random(seed=rng.randrange(1000))
     a.setup(spec)
     return [a.propose() for _ in range(ctx.params.get('gen_draws', 3))]
-  ds = lib_call(ctx, 'geno.Random', gen, case)
+  ds = lib_call(ctx, 'geno.Random' + sfx, gen, case)
+  if isinstance(ds, Raised):
+    return
+  for d in ds:
+    judge('geno.Random', d)
+  # the same generator object set up on another spec, then on this one again
+  od, ospec, _ = rng.choice(other_specs())
+  def regen():
+    a.setup(ospec)
+    first = a.propose()
+    a.setup(spec)
+    return first, a.propose()
+  ds = lib_call(ctx, 'geno.Random:re-setup' + sfx, regen, case)
   if not isinstance(ds, Raised):
-    for d in ds:
-      c['random_dna_checks'] += 1
-      why = G.why_not(desc, numbers(d))
-      if why is not None:
-        ctx.violation('random-nonmember', f'geno.Random:{why[1]}:{why[0]}',
-                      f'{d!r}: {why}', case)
+    c['random_generator_reused'] += 1
+    judge('geno.Random:re-setup', ds[0], od)
+    judge('geno.Random:re-setup', ds[1])
+
+
+def sweep_history(ctx, rng, desc, spec, exp, sweep_all, nsweep, case):
+  """One Sweeping generator object through a history of setup() calls.
+
+  Every setup(target) is followed by n proposals, which must be the first n
+  DNAs of the reference enumeration of that target (and StopIteration after
+  the last).  Targets: `A` this spec object, `A2` an equal spec that is another
+  object (built again from the description or a deep clone), `B` another spec.
+  The history always contains the main sweep of `A` (whole sequence and its
+  end when sweep_all, else nsweep proposals): first thing on the fresh
+  generator, or after a warm-up use of 0, 1, 2 or all proposals; it is
+  followed by 1..reuse_tail further short uses.  Mechanism = relation of the
+  target to the history: fresh generator, the object of the previous setup,
+  an equal copy of it, an object set up earlier, another spec."""
+  c = ctx.counters
+  targets = {'A': (S.show(desc), spec, exp, sweep_all)}
+
+  def target(name):
+    if name not in targets:
+      if name == 'A2':
+        how = rng.choice(['built-again', 'clone-deep'])
+        obj = build(desc) if how == 'built-again' else spec.clone(deep=True)
+        c['sweep_equal_copy:' + how] += 1
+        targets[name] = (S.show(desc), obj, exp, sweep_all)
+      else:
+        od, ospec, oref = rng.choice(other_specs())
+        targets[name] = (S.show(od), ospec, oref, True)
+    return targets[name]
+
+  def short(name):
+    n = rng.choice([0, 1, 2, 2, 'all', 'all+stop'])
+    if isinstance(n, str):
+      _, _, ref, complete = target(name)
+      n = (len(ref) + (n == 'all+stop')) if complete and len(ref) <= 6 else 3
+    return (name, n)
+
+  pick = lambda: rng.choice(['A', 'A', 'A', 'A2', 'B'])
+  steps = []
+  if rng.random() < 0.6:
+    steps.append(short(pick()))
+  steps.append(('A', 'main'))
+  for _ in range(rng.randint(1, ctx.params.get('reuse_tail', 2))):
+    steps.append(short(pick()))
+  if steps[-1][1] == 0:
+    steps[-1] = (steps[-1][0], 1)
+
+  a = pg.geno.Sweeping()
+  prev, used, before = None, [], 'nothing'
+  for name, n in steps:
+    shown, obj, ref, complete = target(name)
+    if prev is None:
+      rel = 'fresh'
+    elif obj is prev[1]:
+      rel = 'same-object'
+    elif shown == prev[0]:
+      rel = 'equal-copy'
+    elif any(obj is u for u in used):
+      rel = 'earlier-object'
+    else:
+      rel = 'other-spec'
+    main = n == 'main'
+    if main:
+      n = nsweep
+    def use():
+      a.setup(obj)
+      out = []
+      try:
+        while len(out) < n:
+          out.append(numbers(a.propose()))
+      except StopIteration:
+        out.append('stop')
+      return out
+    label = 'Sweeping' if rel == 'fresh' else 'Sweeping:re-setup:' + rel
+    s = lib_call(ctx, label, use, case)
+    c['sweeping_checks'] += 1
+    if main:
+      c['sweeping_full' if sweep_all else 'sweeping_prefix'] += 1
+    c['sweeping_setup:' + rel] += 1
+    c['sweeping_setup_after:' + before] += 1
+    if isinstance(s, Raised):
+      return
+    c['sweeping_proposals'] += len(s)
+    want = list(ref[:n])
+    if complete and n > len(ref):
+      want.append('stop')
+    if s[:len(want)] != want:
+      mech = 'Sweeping.propose' if rel == 'fresh' else 're-setup:' + rel
+      ctx.violation('sweeping', mech,
+                    f'history {steps!r}: after setup({name}) ({rel}, the '
+                    f'generator had proposed {before} since its previous '
+                    f'setup) proposed {s[:6]!r}... ({len(s)}), reference '
+                    f'{want[:6]!r}... ({len(want)})', case)
+      return
+    if rel != 'fresh':
+      c['sweeping_reuse_checks'] += 1
+    got = [x for x in s if x != 'stop']
+    before = ('nothing' if not got else
+              'all-and-stop' if 'stop' in s else
+              'all' if complete and len(got) == len(ref) else 'some')
+    prev = (shown, obj)
+    used.append(obj)
 
 
 def check_finite(ctx, rng, desc, spec, size, case, exhaustive=False):
@@ -594,29 +922,11 @@ def check_finite(ctx, rng, desc, spec, size, case, exhaustive=False):
     if not isinstance(r, Raised) and (r[0] != ref[0] or r[1] != ref[1:1 + nfirst]):
       ctx.violation('next-wrong', 'first_dna', f'{r!r} vs {ref[:1 + nfirst]!r}', case)
   # -- Sweeping: the whole sequence and its end for spaces of <= sweep_full
-  # members, else the first sweep_prefix proposals
+  # members, else the first sweep_prefix proposals; on a fresh generator or on
+  # one that was used before (see sweep_history)
   sweep_all = full and size <= ctx.params.get('sweep_full', 10 ** 9)
   nsweep = len(exp) + 2 if sweep_all else min(len(exp), ctx.params.get('sweep_prefix', 8))
-  def sweep():
-    a = pg.geno.Sweeping()
-    a.setup(spec)
-    out = []
-    try:
-      while len(out) < nsweep:
-        out.append(numbers(a.propose()))
-    except StopIteration:
-      out.append('stop')
-    return out
-  s = lib_call(ctx, 'Sweeping', sweep, case)
-  c['sweeping_checks'] += 1
-  c['sweeping_full' if sweep_all else 'sweeping_prefix'] += 1
-  if not isinstance(s, Raised):
-    c['sweeping_proposals'] += len(s)
-  want = (list(exp) + ['stop']) if sweep_all else list(exp[:nsweep])
-  if not isinstance(s, Raised) and s[:len(want)] != want:
-    ctx.violation('sweeping', 'Sweeping.propose',
-                  f'proposed {s[:6]!r}... ({len(s)}), reference {want[:6]!r}... '
-                  f'({len(want)})', case)
+  sweep_history(ctx, rng, desc, spec, list(exp), sweep_all, nsweep, case)
   return (ref, dnas if got == exp else None) if full else (None, None)
 
 
@@ -632,8 +942,9 @@ def run_case(ctx, i):
     fl = rng.choice([0.0, 0.0, 0.15, 0.3])
     desc = S.random_space(rng, max_depth=rng.choice([1, 2, 3]), max_elems=3,
                           max_k=3, max_n=4, floats=fl, customs=fl / 3)
-  case = {'space': S.show(desc)}
-  spec = lib_call(ctx, 'build-spec', lambda: S.build(desc), case)
+    vary_floats(desc, rng)
+  case = {'space': show(desc)}
+  spec = lib_call(ctx, 'build-spec', lambda: build(desc), case)
   if isinstance(spec, Raised):
     return
   size = G.size(desc)
@@ -669,7 +980,8 @@ def run_case(ctx, i):
   elif members is not None:
     sample = [members[0], members[-1]] + [rng.choice(members) for _ in range(nm - 2)]
   else:
-    sample = [G.random_member(desc, rng) for _ in range(nm)]
+    safe = SafeRandom(rng.randrange(1 << 30))
+    sample = [G.random_member(desc, safe) for _ in range(nm)]
   check_members(ctx, desc, spec, sample, case)
   check_nonmembers(ctx, rng, desc, spec,
                    [rng.choice(sample) for _ in range(ctx.params['corrupt'])], case,
@@ -678,8 +990,8 @@ def run_case(ctx, i):
   if (size is None or size >= 2) and (
       any(e['t'] == 'choice' and (e['k'] > 1 or any(cd['elems'] for cd in e['cands']))
           for e in desc['elems'])):
-    ctx.mark_nontrivial(S.show(desc))
+    ctx.mark_nontrivial(show(desc))
   ctx.seen('sizes', size)
   if i < 2:
-    ctx.sample({'space': S.show(desc), 'size': size,
+    ctx.sample({'space': show(desc), 'size': size,
                 'first_members': [list(m) for m in sample[:3]]})
